@@ -73,42 +73,6 @@ def fromWindowsStr (s : Str) : Option Signal := (windowsTable.find? (·.1 == toU
 /-- `FromStr`: control names first -/
 def parse (s : Str) : Option Signal := match fromWindowsStr s with | some x => some x | none => fromUnixStr s
 
-/-! ### theorems (finite domains, enumerated completely) -/
-
-def firstClass : List Signal := [.hangup, .forceStop, .interrupt, .quit, .terminate, .user1, .user2]
-def validNums : List Int := nixTable.map (·.1)
-/-- every signal the platform knows, in every constructor form -/
-def allSignals : List Signal := firstClass ++ validNums.map Signal.custom ++ validNums.map fromNix
-
-/-- display ∘ parse keeps the OS signal -/
-theorem display_parse : ∀ s ∈ allSignals, (parse (display s)).bind toNix = toNix s := by decide +kernel
-
-/-- first-class signals have their POSIX numbers -/
-theorem posix_numbers :
-    toNix .hangup = some 1 ∧ toNix .interrupt = some 2 ∧ toNix .quit = some 3 ∧ toNix .forceStop = some 9 ∧
-    toNix .user1 = some 10 ∧ toNix .user2 = some 12 ∧ toNix .terminate = some 15 := by decide +kernel
-
-/-- documented exceptions: control names win over the unix short name -/
-def controlNames : List Str := windowsTable.map (·.1)
-
-/-- the spellings of one signal, in upper, lower and capitalised form -/
-def spellings (p : Int × Str) : List Str :=
-  let short := p.2.drop 3
-  let variants (s : Str) : List Str := [s, s.map lowerC, match s.map lowerC with | c :: r => upperC c :: r | [] => []]
-  [showInt p.1] ++ variants p.2 ++ variants short
-
-/-- number, SIG-name and short name agree in every letter case, except for the documented control names -/
-theorem spellings_agree : ∀ p ∈ nixTable, ∀ sp ∈ spellings p,
-    toUpper sp ∈ controlNames ∨ (parse sp).bind toNix = some p.1 := by decide +kernel
-
-/-- the only spelling taken over by a control name is the documented `STOP` -/
-theorem only_stop_is_shadowed : ∀ p ∈ nixTable, ∀ sp ∈ spellings p,
-    toUpper sp ∈ controlNames → toUpper sp = ['S', 'T', 'O', 'P'] ∨ toUpper sp = ['S', 'I', 'G', 'K', 'I', 'L', 'L'] ∨ toUpper sp = ['K', 'I', 'L', 'L'] := by
-  decide +kernel
-
-/-- `From<i32>` agrees with `from_nix` on every valid number -/
-theorem fromI32_fromNix : ∀ n ∈ validNums, toNix (fromI32 n) = some n ∧ toNix (fromNix n) = some n := by decide +kernel
-
 /-! ### exit statuses (Linux wait-status encoding, as std decodes it) -/
 
 inductive ProcessEnd | success | exitError (code : Int) | exitSignal (s : Signal) | exitStop (sig : Int) | continued
@@ -133,11 +97,4 @@ def fromStatus (st : Nat) : ProcessEnd :=
   | none, some g, none => if wifcontinued st then .continued else .exitSignal (fromI32 g)
   | none, none, _ => .success
 
-theorem exit_codes : ∀ c ∈ List.range 256,
-    fromStatus (c * 256) = if c = 0 then .success else .exitError c := by decide +kernel
-
-theorem term_signals : ∀ g ∈ List.range 65, g ≠ 0 → ∀ core ∈ [0, 128],
-    fromStatus (g + core) = .exitSignal (fromI32 g) := by decide +kernel
-
-#print axioms spellings_agree
 end Wp
